@@ -138,12 +138,40 @@ fn num(s: &str) -> usize {
 
 /// run a read query; returns the outcome and the engine's emitted-row counter (verif hook)
 fn run_query(db: &Db, cypher: &str, opts: ExecuteOptions) -> (Outcome, usize) {
+    run_query_p(db, cypher, opts, &[])
+}
+
+/// `name=<scalar token>` pairs (`i1`, `b0`, `sabc`, `null`) -> query parameters
+fn parse_params(toks: &[&str]) -> Vec<(String, Value)> {
+    toks.iter()
+        .filter_map(|t| {
+            let (k, v) = t.split_once('=')?;
+            let val = if v == "null" {
+                Value::Null
+            } else if v == "b0" || v == "b1" {
+                Value::Bool(v == "b1")
+            } else if let Some(i) = v.strip_prefix('i') {
+                Value::Int(i.parse().ok()?)
+            } else if let Some(st) = v.strip_prefix('s') {
+                Value::String(st.to_string())
+            } else {
+                return None;
+            };
+            Some((k.to_string(), val))
+        })
+        .collect()
+}
+
+fn run_query_p(db: &Db, cypher: &str, opts: ExecuteOptions, ps: &[(String, Value)]) -> (Outcome, usize) {
     let q = match prepare(cypher) {
         Ok(q) => q,
         Err(e) => return (Outcome::Err(format!("prepare:{}", err_class(&e))), 0),
     };
     let snap = db.snapshot();
-    let params = Params::with_execute_options(opts);
+    let mut params = Params::with_execute_options(opts);
+    for (k, v) in ps {
+        params.insert(k.clone(), v.clone());
+    }
     let r = q.execute_streaming(&snap, &params).collect::<Result<Vec<Row>, Error>>();
     let emitted = params.verif_emitted_rows();
     match r {
@@ -181,7 +209,8 @@ fn bag(rows: &[Row]) -> std::collections::BTreeMap<String, i64> {
     m
 }
 
-fn where_check(db: &Db, classes: &str, prefix: &str, pred: &str, suffix: &str) -> String {
+fn where_check(db: &Db, classes: &str, prefix: &str, pred: &str, suffix: &str, ps: &[(String, Value)]) -> String {
+    let run_query = |db: &Db, cy: &str, o: ExecuteOptions| run_query_p(db, cy, o, ps);
     let base = run_query(db, &format!("{} {}", prefix, suffix), unlimited()).0;
     // the class string was computed for the graph of this case: a line replayed without its
     // setup lines (shrinking) is not a test of anything
@@ -221,7 +250,8 @@ fn where_check(db: &Db, classes: &str, prefix: &str, pred: &str, suffix: &str) -
 }
 
 /// class of the predicate's value on every row of the unfiltered query: T F N O(ther) E(rror)
-fn classes_of(db: &Db, prefix: &str, pred: &str) -> Option<String> {
+fn classes_of(db: &Db, prefix: &str, pred: &str, ps: &[(String, Value)]) -> Option<String> {
+    let run_query = |db: &Db, cy: &str, o: ExecuteOptions| run_query_p(db, cy, o, ps);
     // one row at a time would be exact per row; the bag of classes is all the model needs
     let (o, _) = run_query(db, &format!("{} RETURN ({}) AS v__", prefix, pred), unlimited());
     match o {
@@ -636,7 +666,8 @@ impl State for S {
                 if s.is_empty() { "ABORT".into() } else { s }
             }
             "w" if parts.len() >= 4 => {
-                where_check(&self.db, ws[1], &parts[1].join(" "), &parts[2].join(" "), &parts[3].join(" "))
+                let ps = if parts.len() >= 5 { parse_params(parts[4]) } else { vec![] };
+                where_check(&self.db, ws[1], &parts[1].join(" "), &parts[2].join(" "), &parts[3].join(" "), &ps)
             }
             // debugging aids (never generated)
             "show" => match run_query(&self.db, &last, unlimited()).0 {
@@ -1306,6 +1337,40 @@ fn generate_c33(rng: &mut Rng, n: usize, tier: &str, out: &mut dyn Write) {
 
 const PROP_VALUES: &[&str] = &["1", "2", "5", "true", "false", "'a'", "'ab'", "'str'", "[1, 2]", "2.5"];
 
+/// constants as they appear in the graphs (PROP_VALUES that are scalars), as literal / parameter
+const EQ_CONSTS: &[(&str, &str)] = &[("1", "i1"), ("2", "i2"), ("5", "i5"), ("true", "b1"), ("false", "b0"), ("'a'", "sa"), ("'ab'", "sab"), ("'str'", "sstr")];
+
+/// a conjunction built around equalities `alias.prop = const`: the planner pushes those down; the
+/// same property may be equated several times (equal or different constants, either operand order,
+/// literal or parameter) and mixed with other conjuncts.  Returns the predicate and its parameters.
+fn eq_conjunction(rng: &mut Rng, var: &str) -> (String, Vec<String>) {
+    let mut params: Vec<String> = Vec::new();
+    let mut conj: Vec<String> = Vec::new();
+    let n = rng.range(2, 4);
+    let key0 = *rng.pick(&["x", "y"]);
+    let c0 = *rng.pick(EQ_CONSTS);
+    for i in 0..n {
+        // mostly the same property again, sometimes another one
+        let key = if rng.chance(3, 4) { key0 } else { *rng.pick(&["x", "y", "name"]) };
+        let c = if rng.chance(1, 3) { c0 } else { *rng.pick(EQ_CONSTS) };
+        let rhs = if rng.chance(1, 4) {
+            let pn = format!("p{}", i);
+            params.push(format!("{}={}", pn, c.1));
+            format!("${}", pn)
+        } else {
+            c.0.to_string()
+        };
+        let lhs = format!("{}.{}", var, key);
+        conj.push(match rng.below(6) {
+            0 => format!("{} = {}", rhs, lhs),
+            1 => format!("{} > 1", lhs),
+            2 => format!("{} IS NOT NULL", lhs),
+            _ => format!("{} = {}", lhs, rhs),
+        });
+    }
+    (conj.join(" AND "), params)
+}
+
 fn where_pred(rng: &mut Rng, var: &str, depth: u32) -> String {
     let p = |_rng: &mut Rng, k: &str| format!("{}.{}", var, k);
     let key = *rng.pick(&["x", "y", "name"]);
@@ -1370,22 +1435,60 @@ fn generate_c19(rng: &mut Rng, n: usize, _tier: &str, out: &mut dyn Write) {
             writeln!(out, "idx P x").unwrap();
             let _ = db.create_index("P", "x");
         }
+        // systematic: pairs of constants for :P(x), equal and different, as two equalities (either
+        // operand order) / one equality plus an inline map / on a relationship end
+        if c % 4 == 0 {
+            let consts = ["1", "2", "true", "'a'"];
+            for a in consts {
+                for b in consts {
+                    let forms: [(String, String); 4] = [
+                        ("MATCH (n:P)".to_string(), format!("n.x = {} AND n.x = {}", a, b)),
+                        ("MATCH (n)".to_string(), format!("{} = n.x AND n.x = {} AND n.name IS NOT NULL", a, b)),
+                        (format!("MATCH (n:P {{x: {}}})", b), format!("n.x = {}", a)),
+                        ("MATCH (n:P)-[:R]->(m)".to_string(), format!("m.x = {} AND n.name IS NOT NULL AND m.x = {}", a, b)),
+                    ];
+                    for (prefix, pred) in forms {
+                        let suffix = if prefix.contains("(m)") { "RETURN n.name AS a, m.name AS b" } else { "RETURN n.name AS name" };
+                        let Some(classes) = classes_of(&db, &prefix, &pred, &[]) else { continue };
+                        let classes = if classes.is_empty() { "-".to_string() } else { classes };
+                        writeln!(out, "w {} ; {} ; {} ; {}", classes, prefix, pred, suffix).unwrap();
+                    }
+                }
+            }
+        }
         let mut made = 0;
         let mut tries = 0;
         while made < per_case && tries < per_case * 10 {
             tries += 1;
-            let (prefix, var, suffix) = match rng.below(6) {
-                0 => ("MATCH (n:P)".to_string(), "n", "RETURN n.name AS name"),
-                1 => ("MATCH (n)".to_string(), "n", "RETURN n.name AS name"),
-                2 => ("MATCH (n:P)-[:R]->(m)".to_string(), "m", "RETURN n.name AS a, m.name AS b"),
+            // inline pattern property maps take part in the planner's pushdown as well
+            let inline = |rng: &mut Rng| -> String {
+                if rng.chance(1, 3) {
+                    let c = *rng.pick(EQ_CONSTS);
+                    format!(" {{{}: {}}}", rng.pick(&["x", "y"]), c.0)
+                } else {
+                    String::new()
+                }
+            };
+            let (prefix, var, suffix) = match rng.below(8) {
+                0 => (format!("MATCH (n:P{})", inline(rng)), "n", "RETURN n.name AS name"),
+                1 => (format!("MATCH (n{})", inline(rng)), "n", "RETURN n.name AS name"),
+                2 => (format!("MATCH (n:P{})-[:R]->(m{})", inline(rng), inline(rng)), "m", "RETURN n.name AS a, m.name AS b"),
                 3 => ("MATCH (n:P) WITH n".to_string(), "n", "RETURN n.name AS name"),
-                4 => ("MATCH (m)<-[:R]-(n)".to_string(), "n", "RETURN n.name AS a, m.name AS b"),
+                4 => (format!("MATCH (m)<-[:R]-(n{})", inline(rng)), "n", "RETURN n.name AS a, m.name AS b"),
+                5 => (format!("MATCH (n:P{})-[r:R]->(m)", inline(rng)), "n", "RETURN n.name AS a, m.name AS b"),
+                6 => ("MATCH (n:P) OPTIONAL MATCH (n)-[:R]->(m) WITH n, m".to_string(), "m", "RETURN n.name AS a, m.name AS b"),
                 _ => ("UNWIND [{x: 1, y: true, name: 'a'}, {x: 'str', name: 'b'}, {y: false}, {x: null}] AS n WITH n".to_string(), "n", "RETURN n.name AS name"),
             };
-            let pred = where_pred(rng, var, 1);
-            let Some(classes) = classes_of(&db, &prefix, &pred) else { continue };
+            let (pred, params) = if rng.chance(2, 5) { eq_conjunction(rng, var) } else { (where_pred(rng, var, 1), vec![]) };
+            let pstr: Vec<&str> = params.iter().map(|x| x.as_str()).collect();
+            let ps = parse_params(&pstr);
+            let Some(classes) = classes_of(&db, &prefix, &pred, &ps) else { continue };
             let classes = if classes.is_empty() { "-".to_string() } else { classes };
-            writeln!(out, "w {} ; {} ; {} ; {}", classes, prefix, pred, suffix).unwrap();
+            if params.is_empty() {
+                writeln!(out, "w {} ; {} ; {} ; {}", classes, prefix, pred, suffix).unwrap();
+            } else {
+                writeln!(out, "w {} ; {} ; {} ; {} ; {}", classes, prefix, pred, suffix, params.join(" ")).unwrap();
+            }
             made += 1;
         }
     }
